@@ -91,9 +91,13 @@ Definition embed (ty : gotype) (signed : bool) (u : N) (z : Z) : goval :=
 
 (* time state of the stream: the reference is the latest timestamp (field 253) seen *)
 Definition time_of (u : N) : goval := VTime (Z.of_N u) 0 None.
+(* local_date_time: "the reference UTC instant in a fixed zone whose offset is local minus UTC (offset 0 when there is
+   no reference)". A reference below c_systemTimeMarker counts seconds since power on: it is not a UTC instant, so it
+   is no reference for this purpose (offset 0, instant = the stored reading). *)
 Definition local_time_of (ref : option N) (l : N) : goval :=
   match ref with
-  | Some r => VTime (Z.of_N r) 0 (Some (Z.of_N l - Z.of_N r)%Z)
+  | Some r => if r <? c_systemTimeMarker then VTime (Z.of_N l) 0 (Some 0%Z)
+              else VTime (Z.of_N r) 0 (Some (Z.of_N l - Z.of_N r)%Z)
   | None => VTime (Z.of_N l) 0 (Some 0%Z)
   end.
 Definition coord_invalid : Z := 0x7FFFFFFF.
